@@ -732,7 +732,11 @@ impl CamtCase {
                 details.push(CamtDetail {
                     amount: amt,
                     credit: dcredit,
-                    reference: if rng.chance(4, 5) { Some(format!("2021103{}/{}/{}", k % 10, k + 1, j + 1)) } else { None },
+                    reference: match rng.below(10) {
+                        0 => None,
+                        1 => Some(String::new()), // present but empty: the code is `()`
+                        _ => Some(format!("2021103{}/{}/{}", k % 10, k + 1, j + 1)),
+                    },
                     creditor: if rng.chance(1, 2) { Some(rng.pick(texts).to_string()) } else { None },
                     debtor: if rng.chance(1, 2) { Some(rng.pick(texts).to_string()) } else { None },
                     ultimate_debtor: if rng.chance(1, 5) { Some(rng.pick(texts).to_string()) } else { None },
